@@ -96,11 +96,13 @@ func (s *Server) Start() {
 		)
 	p.Start()
 	// Start goroutine to cleanup resources on protocol shutdown
+	// We create our own vars for these channels since they get replaced on restart.
+	// They must be captured here, not inside the goroutine: if it is scheduled
+	// after a restart it would pick up (and close) the next instance's channels
 	doneChan := p.DoneChan()
+	requestTxIdsResultChan := s.requestTxIdsResultChan
+	requestTxsResultChan := s.requestTxsResultChan
 	go func() {
-		// We create our own vars for these channels since they get replaced on restart
-		requestTxIdsResultChan := s.requestTxIdsResultChan
-		requestTxsResultChan := s.requestTxsResultChan
 		<-doneChan
 		close(requestTxIdsResultChan)
 		close(requestTxsResultChan)
